@@ -49,6 +49,9 @@ pub struct Scn {
     /// crashed directory and writes two more seconds before the directory is searched again (0 = never)
     #[serde(default)]
     pub restart_every: u32,
+    /// the configured metric directory is given without a trailing path separator
+    #[serde(default)]
+    pub dir_without_slash: bool,
 }
 
 pub struct C19;
@@ -110,7 +113,7 @@ impl Prop for C19 {
         sentinel_core::config::reset_global_config(ConfigEntity::new());
     }
     fn rule_text(&self) -> &'static str {
-        "seeded write histories through the real DefaultMetricLogWriter (1-8 seconds, one history in eight 10-14 seconds with a 1..100-byte limit so that one date gets more than nine files, x 1-3 resources - one history in three with multi-byte resource names - with gaps, day changes across a virtual midnight, single-file limits of 150..2000 bytes forcing size roll-over, max file count 1..4 forcing retention; one history in three with short writes and EINTR injected into the writer's write(2) calls at a rate of 5-50 %). (1) No crash: for every window of written seconds x every resource (and all resources), and from every second with line limits {1,2,3,1000}, both search calls of a fresh and of a reused DefaultMetricSearcher are compared with the lines of the files that still exist. (2) Crash enumeration: the libc-level operation log of the run (every create, unlink and written byte, in program order) is cut at EVERY crash point; each prefix is materialised as a directory and searched: no panic, every item whose line and whose second's index entry are complete is returned in order, every returned item is a completely written line except at most one parsed from the single torn last line. evaluations = histories; the counters report crash states. Non-trivial = history with a roll-over and >= 200 crash states (or, without crash enumeration, >= 2 files); distinct = distinct trace hash."
+        "seeded write histories through the real DefaultMetricLogWriter (1-8 seconds, one history in eight 10-14 seconds with a 1..100-byte limit so that one date gets more than nine files, x 1-3 resources - one history in three with multi-byte resource names - with gaps, day changes across a virtual midnight, single-file limits of 150..2000 bytes forcing size roll-over, max file count 1..4 forcing retention; the metric directory configured with or without a trailing separator; one history in three with short writes and EINTR injected into the writer's write(2) calls at a rate of 5-50 %). (1) No crash: for every window of written seconds x every resource (and all resources), and from every second with line limits {1,2,3,1000}, both search calls of a fresh and of a reused DefaultMetricSearcher are compared with the lines of the files that still exist. (2) Crash enumeration: the libc-level operation log of the run (every create, unlink and written byte, in program order) is cut at EVERY crash point; each prefix is materialised as a directory and searched: no panic, every item whose line and whose second's index entry are complete is returned in order, every returned item is a completely written line except at most one parsed from the single torn last line. evaluations = histories; the counters report crash states. Non-trivial = history with a roll-over and >= 200 crash states (or, without crash enumeration, >= 2 files); distinct = distinct trace hash."
     }
     fn components(&self) -> Value {
         json!({"real": ["sentinel-core (feature metric_log): DefaultMetricLogWriter (index + log files, roll-over by size and date, retention), DefaultMetricSearcher, DefaultMetricLogReader, MetricItem parsing", "file system: real files under /dev/shm (or /verif/scratch)"],
@@ -143,7 +146,7 @@ impl Prop for C19 {
         let probes: Vec<usize> = if rng.chance(1, 2) { (0..rng.range(1, 2)).map(|_| rng.below(nsec) as usize).collect() } else { vec![] };
         let restart_every = if rng.chance(1, 2) { *rng.pick(&[7u32, 23, 61]) } else { 0 };
         let max_size = if many { *rng.pick(&[1u64, 100]) } else { *rng.pick(&[150u64, 200, 400, 1000, 2000, 1 << 20]) };
-        serde_json::to_value(Scn { epoch_ns, max_size, max_files: rng.range(1, 4) as usize, res, crash: !rng.chance(1, 4), io_fault_rate: if rng.chance(1, 3) { *rng.pick(&[50usize, 200, 500]) } else { 0 }, ops, probes, restart_every }).unwrap()
+        serde_json::to_value(Scn { epoch_ns, max_size, max_files: rng.range(1, 4) as usize, res, crash: !rng.chance(1, 4), io_fault_rate: if rng.chance(1, 3) { *rng.pick(&[50usize, 200, 500]) } else { 0 }, ops, probes, restart_every, dir_without_slash: rng.chance(1, 3) }).unwrap()
     }
 
     fn execute(&self, scenario: &Value, cov: &mut Cov) -> RunResult {
@@ -447,13 +450,14 @@ fn rng_pick(secs: &[u64], i: usize) -> &u64 {
 fn write_history(sc: &Scn, live: &str, w: &mut World, cov: &mut Cov) -> Result<(DefaultMetricLogWriter, Vec<u64>, Option<DefaultMetricSearcher>), Violation> {
     let mut cfg = ConfigEntity::new();
     cfg.config.app.app_name = APP.into();
-    cfg.config.log.metric.dir = live.to_string();
+    cfg.config.log.metric.dir = if sc.dir_without_slash { live.trim_end_matches('/').to_string() } else { live.to_string() };
     cfg.config.log.metric.use_pid = false;
     cfg.config.log.metric.flush_interval_sec = 0;
     cfg.config.use_cache_time = false;
     sentinel_core::config::reset_global_config(cfg);
     let creation_sec = sc.epoch_ns / SEC;
-    fsseam::start(live);
+    // (files that the writer puts BESIDE the directory are recorded too: the prefix has no separator)
+    fsseam::start(live.trim_end_matches('/'));
     if sc.io_fault_rate > 0 {
         fsseam::set_faults(sc.epoch_ns ^ 0x10FA_0175, sc.io_fault_rate);
     }
@@ -547,6 +551,14 @@ fn run(sc: &Scn, root: &str, w: &mut World, tr: &mut Trace, cov: &mut Cov) -> Op
     cov.add("short_writes_injected", short_writes as u64);
     cov.add("eintr_injected", eintrs as u64);
     let log = fsseam::stop();
+    for op in &log {
+        let p = match op {
+            FsOp::Create(p) | FsOp::Unlink(p) | FsOp::Write(p, _) => p,
+        };
+        if !p.starts_with(live.as_str()) {
+            return Some(Violation::new("C19/writer-puts-files-outside-the-configured-directory", 0, format!("metric directory configured as {:?}, file {:?}", if sc.dir_without_slash { live.trim_end_matches('/') } else { live.as_str() }, p)));
+        }
+    }
     let creates = log.iter().filter(|o| matches!(o, FsOp::Create(_))).count();
     let unlinks = log.iter().filter(|o| matches!(o, FsOp::Unlink(_))).count();
     cov.add("files_created", creates as u64);
